@@ -8,17 +8,22 @@ src,start,logs=args[0],int(args[1]),args[2:]
 res={}
 for lg in logs:
     for l in open(lg,errors='replace'):
-        m=re.match(r'(out-C\d\d\w)/(m\d) prop=(C\d\d) tests\(pass/fail\)=(\d+)/(\d+) demo\(patched\)=(\d) demo\(clean\)=(\d) :: (.*)',l)
+        m=re.match(r'(out-\w+)/(m\d) prop=(C\d\d) tests\(pass/fail\)=(\d+)/(\d+) demo\(patched\)=(\d) demo\(clean\)=(\d) :: (.*)',l)
         if m: res.setdefault((m.group(1),m.group(2)),[]).append(dict(tests_pass=int(m.group(4)),tests_fail=int(m.group(5)),demo_patched=int(m.group(6)),demo_clean=int(m.group(7)),run=m.group(8).strip()[:600]))
 base=os.path.basename(src.rstrip('/'))
 for i,d in enumerate(sorted(glob.glob(src+'/m*'))):
     meta=json.load(open(os.path.join(d,'meta.json')))
     prop=meta.get('property',base[4:7]); m=os.path.basename(d)
-    name=f'{prop}-m{start+i}'
+    if start>0: name=f'{prop}-m{start+i}'
+    else:
+        # start 0: next free number of that property (free-form rounds mix properties)
+        n=1
+        while os.path.exists(f'/verif/seeded/{prop}-m{n}'): n+=1
+        name=f'{prop}-m{n}'
     dst=f'/verif/seeded/{name}'; os.makedirs(dst,exist_ok=True)
     for f in ('patch.diff','demo.sh'): shutil.copy(os.path.join(d,f),dst)
     rr=res.get((base,m),[{}])
-    out=dict(property=prop, summary=meta.get('summary'), needs=meta.get('needs'), author="independent sub-agent given only the property text (and one-line summaries of earlier seeded changes to avoid) and a scratch worktree", author_verified=meta.get('verified'),
+    out=dict(property=prop, summary=meta.get('summary'), needs=meta.get('needs'), author="independent sub-agent given only property texts (and, in rounds b and c, one-line summaries of earlier seeded changes to avoid) and a scratch worktree", author_verified=meta.get('verified'),
              confirmed_by_me=dict(how="tools/seed-eval.sh (scratch worktree of /repo HEAD + patch.diff; unedited test suite; demo.sh on patched and unchanged tree; quick checks against the patched tree)", **{k:v for k,v in rr[-1].items() if k!='run'}),
              detection=dict(runs=[x.get('run') for x in rr], note=notes.get(m)))
     json.dump(out,open(os.path.join(dst,'meta.json'),'w'),indent=1)
